@@ -23,7 +23,7 @@ COMPONENTS = {"real": ["setigen.voltage.polyphase_filterbank (PolyphaseFilterban
               "stub": ["none needed: no clock, file or entropy is read on this path (entropy seam installed as tripwire)"]}
 ASSUMPTIONS = ["scipy.signal.firwin is the documented window design (trusted)",
                "float comparison at 1e-10 of the largest attainable output magnitude"]
-PROBES = ["one_shot_length_not_a_multiple_of_window", "long_single_call", "same_coefficient_count_other_split_alive", "chunk_single_window", "reset_midstream", "nocache_between_feeds", "interleaved_objects",
+PROBES = ["object_copied_or_pickled_mid_stream", "one_shot_length_not_a_multiple_of_window", "long_single_call", "same_coefficient_count_other_split_alive", "chunk_single_window", "reset_midstream", "nocache_between_feeds", "interleaved_objects",
           "complex_input", "nonpow2_branches", "dtype_switch_after_reset", "noncontiguous_input", "rejected_call"]
 
 WINDOWS = ["hamming", "hann", "boxcar", "blackman"]
@@ -92,6 +92,8 @@ def generate(rng, tier):
         elif r < 0.765:
             # a call the filterbank must reject (no array at all); the stream must carry on as if it had not happened
             ops.append({"op": "reject", "p": p, "arg": rng.choice(["none", "scalar"])})
+        elif r < 0.775:
+            ops.append({"op": "snapshot", "p": p, "how": rng.choice(["deepcopy", "copy", "pickle"])})
         elif r < 0.79:
             ops.append({"op": "reset", "p": p})
         elif r < 0.82:
@@ -292,6 +294,19 @@ def execute(sc, ctx):
                 bad = _first_bad(got, cat, 2 * tol)
                 ctx.check(bad is None, "value", "C08/value/long_call_differs_from_chunked", lambda: "at %s" % (bad,))
             ctx.nontrivial = True
+        elif op["op"] == "snapshot":
+            # somebody looks at the object in mid-stream through the copy / pickle protocol (a checkpoint, a template
+            # handed to a backend, which deep-copies it): the stream being channelised must not notice
+            import copy as _copy
+            import pickle as _pickle
+            if op["how"] == "deepcopy":
+                _copy.deepcopy(o)
+            elif op["how"] == "copy":
+                _copy.copy(o)
+            else:
+                _pickle.loads(_pickle.dumps(o))
+            ctx.hit("object_copied_or_pickled_mid_stream")
+            ctx.event("snapshot", p, op["how"])
         elif op["op"] == "reject":
             try:
                 o.channelize(None if op["arg"] == "none" else 5.0, cache=True)
